@@ -128,10 +128,12 @@ impl TulispObject {
     /// Read more about Emacs `eql`
     /// [here](https://www.gnu.org/software/emacs/manual/html_node/elisp/Comparison-of-Numbers.html#index-eql)
     pub fn eql(&self, other: &TulispObject) -> bool {
-        if self.numberp() {
-            self.eq_val(other)
-        } else {
-            self.eq_ptr(other)
+        match (&*self.inner_ref(), &*other.inner_ref()) {
+            (TulispValue::Int { value: l }, TulispValue::Int { value: r }) => l == r,
+            (TulispValue::Float { value: l }, TulispValue::Float { value: r }) => {
+                l.to_bits() == r.to_bits()
+            }
+            _ => self.eq(other),
         }
     }
 
